@@ -10,6 +10,7 @@ Lean model's receipt lists == the implementation's, in order, with positions.
 import asyncio
 import os
 import random
+import re
 import tempfile
 
 import vlib
@@ -65,6 +66,43 @@ SITES = [
     ("multi-word", "===D===\nK::alpha beta gamma\n===END===\n", [("multi_word_coalesce", None, 2, 4)]),
     ("multi-word after alias line", "===D===\nJ::A->B\nK::alpha beta\n===END===\n", [("normalization", "->", 2, 5), ("multi_word_coalesce", None, 3, 4)]),
 ]
+
+
+def brace_sites(ctx, findings):
+    """brace-for-angle annotation repair (octave_write, lenient): ONE receipt per occurrence — also when the same annotation text
+    occurs at several sites (the receipts carry no position, so equal occurrences give equal records: compare as multisets)."""
+    from collections import Counter
+    from octave_mcp.mcp.write import WriteTool
+    rng = random.Random(f"{ctx.seed}:brace")
+    names, quals = ["ATHENA", "ARES", "T_1", "a.b"], ["wisdom", "war", "x", "q_2"]
+    docs = ["===D===\nA::ATHENA{wisdom}\nB::ATHENA{wisdom}\nC:\n  X::ATHENA{wisdom}\n  Y::ARES{war}\n===END===\n",
+            "===D===\nA::[ATHENA{x},ATHENA{x}]\n===END===\n", "===D===\nA::ATHENA{x}\n===END===\n"]
+    for _ in range(ctx.budget(40, 400)):
+        lines, ind = ["===D==="], ""
+        for i in range(rng.randint(1, 6)):
+            if rng.random() < 0.25:
+                lines.append(f"{ind}B{i}:")
+                ind += "  "
+            a = f"{rng.choice(names[:2] if rng.random() < 0.6 else names)}{{{rng.choice(quals[:2] if rng.random() < 0.6 else quals)}}}"
+            lines.append(f"{ind}K{i}::{a}" if rng.random() < 0.7 else f"{ind}K{i}::[{a},{rng.choice(names)}{{{rng.choice(quals)}}}]")
+        docs.append("\n".join(lines + ["===END==="]) + "\n")
+    with tempfile.TemporaryDirectory() as td:
+        for text in docs:
+            case = {"text": text, "site": "brace-for-angle", "entry": "tools", "lenient": True}
+            ctx.case({"text": text, "site": "brace-for-angle"})
+            exp = Counter(m.group(0) for m in re.finditer(r"[A-Za-z_][A-Za-z0-9_./\-]*\{[A-Za-z_][A-Za-z0-9_./\-]*\}", text))
+            try:
+                w = asyncio.run(WriteTool().execute(target_path=os.path.join(td, "b.oct.md"), content=text, corrections_only=True, lenient=True))
+            except BaseException as e:  # noqa: BLE001
+                ctx.count("tool_raised:" + type(e).__name__)
+                continue
+            if w.get("status") != "success":
+                ctx.count("brace:write_refused")
+                continue
+            got = Counter(c.get("before") for c in (w.get("corrections") or []) if isinstance(c, dict) and c.get("code") == "W_REPAIR_CANDIDATE")
+            ctx.count("brace:sites", sum(exp.values()))
+            if got != exp:
+                X.classify(ctx, findings, CLASSES, case, f"octave_write(lenient=true) rewrote the brace annotations {dict(exp)} but reports {dict(got)}", "site-brace")
 
 
 def site_matrix(ctx, findings):
@@ -186,6 +224,7 @@ def run(ctx: vlib.Ctx):
             except BaseException as e:  # noqa: BLE001
                 ctx.count("tool_raised:" + type(e).__name__)
     site_matrix(ctx, findings)
+    brace_sites(ctx, findings)
     ctx.assumptions = ["'rewrite receipts' are read as in DESIGN.md §7 C07: lexer normalization / repair_candidate records and the lenient_parse subtypes that "
                        "transform text; advisories (duplicate_key, deep_nesting, spec_violation/*) are not rewrites",
                        "step-level receipt lemma is proved (Props/C07); the document-level bijection is an open proof target"]
